@@ -1,7 +1,7 @@
 From FS Require Import Sexp Fetch.
 From Coq Require Import Lia.
 
-Definition is_fetch (o : op) : bool := match o with Execute _ _ => false | _ => true end.
+Definition is_fetch (o : op) : bool := match o with Execute _ _ _ => false | _ => true end.
 
 Definition rows_of (o : out) : list row :=
   match o with ORows l => l | OOne (Some r) => [r] | _ => [] end.
@@ -35,7 +35,7 @@ Lemma hd_firstn1 {X} (l : list X) :
 Proof. destruct l; reflexivity. Qed.
 
 Lemma step_fetch s o rows names : res s = Some (rows, names) -> is_fetch o = true ->
-  res (fst (step s o)) = Some (rows, names) /\ dictc (fst (step s o)) = dictc s /\
+  res (fst (step s o)) = Some (rows, names) /\ (dictc (fst (step s o)) = dictc s /\ rc (fst (step s o)) = rc s) /\
   off (fst (step s o)) = (off s + req s o)%nat /\
   (dictc s = false -> rows_of (snd (step s o)) = firstn (req s o) (skipn (off s) rows)
                       /\ dicts_of (snd (step s o)) = []) /\
@@ -45,7 +45,7 @@ Proof.
   intros R F. unfold req. rewrite R.
   destruct o; try discriminate; cbn [step]; rewrite ?R; cbn [fst snd res dictc off idx advance];
     try change (eff_size s (Some 1%nat)) with 1%nat;
-    (split; [first [exact R|reflexivity]|split; [reflexivity|split; [try reflexivity; unfold off; cbn [idx]; lia|split]]]); intros D; rewrite ?D;
+    (split; [first [exact R|reflexivity]|split; [split; reflexivity|split; [try reflexivity; unfold off; cbn [idx]; lia|split]]]); intros D; rewrite ?D;
     cbn [rows_of dicts_of]; unfold slice; try (split; reflexivity).
   - destruct (skipn (off s) rows); split; reflexivity.
   - destruct (skipn (off s) rows); split; reflexivity.
@@ -67,7 +67,7 @@ Proof.
   induction ops as [|o ops IH]; intros s rows names R F.
   - cbn. split; reflexivity.
   - cbn [forallb] in F. apply andb_true_iff in F as [Fo Fr].
-    destruct (step_fetch s o rows names R Fo) as (R' & D' & O' & HT & HD).
+    destruct (step_fetch s o rows names R Fo) as (R' & [D' _] & O' & HT & HD).
     cbn [run requested]. destruct (step s o) as [s' x] eqn:E. cbn [fst snd] in *.
     destruct (IH s' rows names R' Fr) as [IT ID]. split; intros D; cbn [map concat].
     + destruct (HT D) as [H1 _]. rewrite H1, IT by congruence. rewrite O', skipn_add. apply firstn_add.
@@ -88,14 +88,14 @@ Proof.
   - split; [|rewrite HD by reflexivity; reflexivity].
     clear HT HD. revert s R Hd K D. induction ops as [|o ops IH]; intros s R Hd K D; [reflexivity|].
     cbn [forallb] in F. apply andb_true_iff in F as [Fo Fr].
-    destruct (step_fetch s o rows names R Fo) as (R' & D' & O' & _ & HD).
+    destruct (step_fetch s o rows names R Fo) as (R' & [D' _] & O' & _ & HD).
     cbn [run]. destruct (step s o) as [s' x] eqn:E. cbn [fst snd map concat] in *.
     destruct (HD D) as [_ H2]. rewrite H2. cbn. apply IH; auto; try congruence; try lia.
     apply skipn_all2. lia.
   - split; [rewrite HT by reflexivity; reflexivity|].
     clear HT HD. revert s R Hd K D. induction ops as [|o ops IH]; intros s R Hd K D; [reflexivity|].
     cbn [forallb] in F. apply andb_true_iff in F as [Fo Fr].
-    destruct (step_fetch s o rows names R Fo) as (R' & D' & O' & HT & _).
+    destruct (step_fetch s o rows names R Fo) as (R' & [D' _] & O' & HT & _).
     cbn [run]. destruct (step s o) as [s' x] eqn:E. cbn [fst snd map concat] in *.
     destruct (HT D) as [_ H2]. rewrite H2. cbn. apply IH; auto; try congruence; try lia.
     apply skipn_all2. lia.
@@ -169,26 +169,33 @@ Theorem no_result_set_l : forall d o, is_fetch o = true ->
   end.
 Proof. intros d o F. destruct o; try discriminate; reflexivity. Qed.
 
-Theorem execute_replaces_l : forall s1 s2 rows names ops,
+Theorem execute_replaces_l : forall s1 s2 rows names aff ops,
   asz s1 = asz s2 -> dictc s1 = dictc s2 ->
-  run s1 (Execute rows names :: ops) = run s2 (Execute rows names :: ops).
-Proof. intros s1 s2 rows names ops A D. cbn. rewrite A, D. reflexivity. Qed.
+  run s1 (Execute rows names aff :: ops) = run s2 (Execute rows names aff :: ops).
+Proof. intros s1 s2 rows names aff ops A D. cbn. rewrite A, D. reflexivity. Qed.
 
-Theorem rowcount_pandas_agree_l : forall ops s rows names,
-  res s = Some (rows, names) -> forallb is_fetch ops = true ->
-  snd (step (final s ops) Rowcount) = OCount (Some (length rows)) /\
+(* after a query (no DML count) rowcount and fetch_pandas_all agree with the rows, at any point of
+   the fetch sequence; after DML rowcount is the affected count *)
+Theorem rowcount_pandas_agree_l : forall ops s0 rows names aff,
+  forallb is_fetch ops = true ->
+  let s := fst (step s0 (Execute rows names aff)) in
+  snd (step (final s ops) Rowcount) = OCount (Some (match aff with Some k => k | None => length rows end)) /\
   snd (step (final s ops) FetchPandas) = OCount (Some (length rows)).
 Proof.
-  induction ops as [|o ops IH]; intros s rows names R F; cbn [final].
-  - cbn. rewrite R. auto.
-  - cbn [forallb] in F. apply andb_true_iff in F as [Fo Fr].
-    destruct (step_fetch s o rows names R Fo) as (R' & _). eapply IH; eassumption.
+  intros ops s0 rows names aff F s.
+  assert (G : forall ops s, forallb is_fetch ops = true -> res s = Some (rows, names) ->
+              res (final s ops) = Some (rows, names) /\ rc (final s ops) = rc s).
+  { clear. induction ops as [|o ops IH]; intros s F R; cbn [final]; [auto|].
+    cbn [forallb] in F. apply andb_true_iff in F as [Fo Fr].
+    destruct (step_fetch s o rows names R Fo) as (R' & [_ C'] & _).
+    destruct (IH _ Fr R') as [A B]. split; [exact A|congruence]. }
+  destruct (G ops s F eq_refl) as [A B]. cbn [step snd]. rewrite A, B. auto.
 Qed.
 
 Example fetch_nonvacuous :
   let rows := [[Some 1; None]; [Some 2; Some 5]; [Some 3; Some 6]] in
   let ops := [Fetchone; SetArraysize 2; Fetchmany None; Fetchmany (Some 4%nat); Fetchall; Fetchone] in
-  run (init false) (Execute rows [lit "A"; lit "A"] :: ops) =
+  run (init false) (Execute rows [lit "A"; lit "A"] None :: ops) =
   [OUnit; OOne (Some [Some 1; None]); OUnit; ORows [[Some 2; Some 5]; [Some 3; Some 6]]; ORows []; ORows [];
    OOne None].
 Proof. vm_compute. reflexivity. Qed.
